@@ -16,6 +16,7 @@ def parseIn : String → Option In
   | "retryx" => some .retryExceeded
   | "reset" => some (.userReset false)
   | "reset!" => some (.userReset true)
+  | "resetL" => some .resetInLocate
   | _ => none
 
 partial def loop (h : IO.FS.Stream) (s : R) : IO Unit := do
